@@ -173,6 +173,21 @@ theorem hexDecode_hexEncode (b : Bytes) (h : ∀ x ∈ b, x < 256) : hexDecodeLe
     congr 1
     omega
 
+theorem hexValid_hexEncode (b : Bytes) : hexValid (hexEncode b) = true := by
+  have hn : ∀ x, x < 16 → (hexNibble? (hexChar x)).isSome = true := by decide
+  induction b with
+  | nil => rfl
+  | cons x xs ih =>
+    simp only [hexValid, hexEncode, List.flatMap_cons, Bool.and_eq_true, beq_iff_eq, List.all_eq_true] at ih ⊢
+    obtain ⟨h1, h2⟩ := ih
+    refine ⟨by simp only [List.length_append, List.length_cons, List.length_nil]; omega, ?_⟩
+    intro c hc
+    simp only [List.mem_append, List.mem_cons, List.not_mem_nil, or_false] at hc
+    rcases hc with (rfl | rfl) | hc
+    · exact hn _ (Nat.mod_lt _ (by decide))
+    · exact hn _ (Nat.mod_lt _ (by decide))
+    · exact h2 c hc
+
 theorem pairOne_enc (e : EncOp) (d : DecOp) (it : Item) (hp : pairOne e d = some it) (r : Rec)
     (hf : it.Fits r) (w : Writer) (hw : w.err = none) :
     e.run ⟨r, w⟩ = .ok ⟨r, w.app (it.bytes r)⟩ := by
@@ -213,7 +228,7 @@ theorem pairOne_enc (e : EncOp) (d : DecOp) (it : Item) (hp : pairOne e d = some
   · rename_i f n f' n' hh
     obtain ⟨b, hs, hl, hb⟩ := hf
     have : r.str f = hexEncode b := by simp [Rec.str, hs]
-    simp only [EncOp.run, Item.bytes, this, hexDecode_hexEncode b hb]
+    simp only [EncOp.run, Item.bytes, this, hexDecode_hexEncode b hb, hexValid_hexEncode, if_true]
     rw [writeFixed_ok w hw b _ (by omega)]
   -- raw body
   · obtain ⟨s, hs, _⟩ := hf
